@@ -80,7 +80,8 @@ INVOLUTION_SIGN = {
 }
 
 
-@rule("C04.involution-table", props=["C04"], min_instances=3, mutants=[
+@rule("C04.involution-table", props=["C04"], min_instances=33, mutants=[
+    ("operands without a grade 2 or 3 (resp. 1, 3 / 1, 2) are returned unchanged", ("codegen", "    return {k: -v if bin(k).count('1') % 4 in invert_grades else v\n            for k, v in x.items()}", "    if not set(x.grades) & set(invert_grades):\n        return dict(x.items())\n    return {k: -v if bin(k).count('1') % 4 in invert_grades else v\n            for k, v in x.items()}")),
     ("reverse negates grades 1,2", ("codegen", "return codegen_involutions(x, invert_grades=(2, 3))", "return codegen_involutions(x, invert_grades=(1, 2))")),
     ("popcount mod 2", ("codegen", "bin(k).count('1') % 4 in invert_grades", "bin(k).count('1') % 2 in invert_grades")),
     ("conjugate and involute exchanged", [("codegen", "def codegen_involute(x):\n    return codegen_involutions(x, invert_grades=(1, 3))", "def codegen_involute(x):\n    return codegen_involutions(x, invert_grades=(1, 2))")]),
@@ -101,6 +102,14 @@ def involution_table(ctx):
         got = run_product(ctx, repo, cg, [1] * d, keys, (), c, unary=True)
         want = {k: Poly.atom(f"a{k}") * Poly.const(sgn(grade(k))) for k in keys}
         compare_result(ctx, c, ctx.func(f"codegen.{cg}"), got, want, op)
+        # operands of one grade, and of high grades only (what a shortcut keyed on the grades PRESENT would look at): the
+        # sign of grade g is that of g mod 4
+        for label, gs in [(f"grade {g} only", (g,)) for g in range(d + 1)] + [("grades 4 and 5", (4, 5)), ("grades 5, 6 and 7", (5, 6, 7))]:
+            ks = tuple(k for k in keys if grade(k) in gs)[:5]
+            c2 = f"codegen.{cg}#{label}"
+            got = run_product(ctx, repo, cg, [1] * d, ks, (), c2, unary=True)
+            want = {k: Poly.atom(f"a{k}") * Poly.const(sgn(grade(k))) for k in ks}
+            compare_result(ctx, c2, ctx.func(f"codegen.{cg}"), got, want, f"{op} of an operand of {label}")
 
 
 @rule("C04.grade", props=["C04", "C08", "C15"], min_instances=19)
@@ -158,19 +167,33 @@ def _check_python_bodied_method(ctx, repo, c, meth, op, order, entry):
             if all(v is not None for v in vals):
                 return {k: v for k, v in zip(o.attrs["_keys"], vals) if not v.is_zero()}
         return None
-    for keys in operands:
+    from ..specmv import Spec
+    spec = Spec([1] * d)
+    # the second operand: other blades, and - for binary methods - the SAME blades in the same and in another storage order
+    # (what a shortcut keyed on "operands of one type" would take for interchangeable)
+    cases = [(keys, (1, 6)) for keys in operands]
+    if len(order) == 2:
+        cases += [((4, 1, 2), (1, 2, 4)), ((1, 2, 4), (1, 2, 4)), ((3, 0, 5), (5, 3, 0))]
+    for keys, ykeys in cases:
         alg = rep_algebra(d)
+        alg.attrs.setdefault("wrapper", None)
 
         def opattr(name, alg=alg):
             def apply(*ops):
                 if name in ("reverse", "involute", "conjugate", "neg") and len(ops) == 1 and coeffs(ops[0]) is not None:
                     res = _spec_unary(name, coeffs(ops[0]))
                     return mv_obj(alg, tuple(res), [PV(v, "sum") for v in res.values()])
+                if name in ("add", "sub", "gp", "op", "ip", "lc", "rc", "sp") and len(ops) == 2 and all(coeffs(o) is not None for o in ops):
+                    res = getattr(spec, name)(coeffs(ops[0]), coeffs(ops[1]))
+                    ks = tuple(sorted(res))
+                    return mv_obj(alg, ks, [PV(res[k], "sum") for k in ks])
                 return Obj("opresult", {"fmt": f"{name}({', '.join(str(id(o)) for o in ops)})"})
             return PyFunc(apply, f"algebra.{name}", True)
         alg.methods["__getattr__"] = opattr
         x = mk(alg, keys, "a")
-        y = mk(alg, (1, 6), "b")
+        y = mk(alg, ykeys, "b")
+        for o_ in (x, y):
+            o_.attrs["issymbolic"] = False
         roles = {"self": x, "other": y}
         it = make_interp(repo)
         it.algebra = alg
@@ -185,6 +208,11 @@ def _check_python_bodied_method(ctx, repo, c, meth, op, order, entry):
             raise Unknown(c, f"evaluates to {got!r}", entry.node)
         if not same:
             g = sorted({grade(k) for k in keys})
+            if len(order) == 2:
+                ctx.violation(c, f"MultiVector.{meth} on operands storing the blades {tuple(keys)} and {tuple(ykeys)} does not equal the documented "
+                                 f"operator {op!r} applied to {order}: got {coeffs(got) if coeffs(got) is not None else got!s}, expected "
+                                 f"{coeffs(want) if coeffs(want) is not None else want!s}", entry.node)
+                return
             ctx.violation(c, f"MultiVector.{meth} on an operand of grades {g} does not equal the documented operator "
                              f"{op!r} applied to {order}: got {coeffs(got) if coeffs(got) is not None else got!s}, expected "
                              f"{coeffs(want) if coeffs(want) is not None else want!s}", entry.node)
@@ -192,10 +220,11 @@ def _check_python_bodied_method(ctx, repo, c, meth, op, order, entry):
     ctx.ok(c, entry.node, operator=op, via="python body, evaluated on homogeneous operands of every grade 0..7 and a mixed one")
 
 
-@rule("C04.registry-names", props=["C04", "C06"], min_instances=60, mutants=[
+@rule("C04.registry-names", props=["C04", "C06", "C03", "C05", "C07"], min_instances=60, mutants=[
     ("single-grade shortcut of reverse() forgets the period 4", ("multivector", "    def reverse(self):\n        \"\"\" Reversion \"\"\"\n        return self.algebra.reverse(self)", "    def reverse(self):\n        \"\"\" Reversion \"\"\"\n        if len(self.grades) == 1:\n            return -self if self.grades[0] in (2, 3) else self\n        return self.algebra.reverse(self)")),
     ("~ bound to conjugate", ("multivector", "    def __invert__(self):\n        \"\"\" Reversion \"\"\"\n        return self.algebra.reverse(self)", "    def __invert__(self):\n        \"\"\" Reversion \"\"\"\n        return self.algebra.conjugate(self)")),
     ("lc method calls rc", ("multivector", "    def lc(self, other):\n        return self.algebra.lc(self, other)", "    def lc(self, other):\n        return self.algebra.rc(self, other)")),
+    ("operands of one type are added position by position", ("multivector", "    def add(self, other):\n        return self.algebra.add(self, other)", "    def add(self, other):\n        if isinstance(other, MultiVector) and other.algebra is self.algebra and other.type_number == self.type_number and not (self.issymbolic or other.issymbolic):\n            return self.fromkeysvalues(self.algebra, self._keys, [v + w for v, w in zip(self._values, other._values)])\n        return self.algebra.add(self, other)")),
 ])
 def registry_names(ctx):
     """Registry field X carries codegen_X; MultiVector methods and dunders forward to the documented operators."""
@@ -218,6 +247,9 @@ def registry_names(ctx):
         if e is None:
             ctx.violation(c, f"documented method/operator {meth} is not defined on MultiVector", None, module="multivector")
         elif e.kind != "op":
+            _check_python_bodied_method(ctx, repo, c, meth, op, order, e)
+        elif (e.op, e.order) == (op, order) and e.via == "def:branching":
+            # forwards for generic operands, but its body branches: also interpreted on representatives of particular shapes
             _check_python_bodied_method(ctx, repo, c, meth, op, order, e)
         elif (e.op, e.order) == (op, order):
             ctx.ok(c, e.node, operator=e.op, order=e.order)
